@@ -131,10 +131,16 @@ fn states_case<T: Sc>(rng: &mut Rng, case: u64, out: &mut CaseOut) {
         let base = ctl.calls();
         // the k-th derivative call of the next jacobian() is call index base + k in the sequential flavour;
         // in the parallel flavour the order is schedule dependent, any single failing derivative call will do
+        let injected_before = ctl.n_injected.load(SeqCst);
         ctl.set_fault((base + k as u64) as i64, false);
         let j = prob.jacobian();
         ctl.set_fault(-1, false);
         out.evals += 1;
+        if ctl.n_injected.load(SeqCst) == injected_before {
+            // the problem did not evaluate that derivative (nothing failed): nothing is demanded
+            out.count("derivative_failure_not_consumed");
+            continue;
+        }
         out.count("derivative_failures_injected");
         if j.is_some() && prob.coeffs().is_some() {
             violation(out, stream, case, format!("a partial derivative failed to evaluate but a Jacobian was produced (failing call {k} of {np})"), json!({"problem": spec.to_json()}));
